@@ -55,6 +55,9 @@ type c11Env struct {
 	arm     []string        // per caller: the hold point it is armed for ("" = none)
 	holdCh  []chan struct{} // per caller: released by unhold
 	held    atomic.Int32    // callers parked at a hold point (they own pe.lock)
+	bholder int             // caller that holds pe.wgBarrier for the harness (-1 = nobody)
+	bch     chan string     // releases it: the value names the call the caller goes on with, without yielding
+	wret    []string        // "<caller>:<k>": a Wait of caller returned after k callback ends of this operation
 	dead    bool            // the watchdog fired in this section: no further operation is attempted
 	stuck   string          // what the watchdog saw
 }
@@ -91,6 +94,46 @@ func (h *c11HookContainer) RemoveAll() any {
 
 //go:noinline
 func c11HoldPark(ch chan struct{}) { <-ch }
+
+//go:noinline
+func c11BarrierPark(ch chan string) string { return <-ch }
+
+// wait calls pe.Wait and records how many callbacks of the current operation had ended when it returned
+func (e *c11Env) wait(w int) {
+	e.pe.Wait()
+	e.mu.Lock()
+	e.wret = append(e.wret, fmt.Sprintf("%d:%d", w, len(e.newFin)))
+	e.mu.Unlock()
+}
+
+// bhold makes caller w take pe.wgBarrier and park inside it: everybody who wants to enter the wait group
+// (Flush, the flusher's hand-over path) or to wait on it parks at the barrier. On release the caller goes on
+// directly with `follow` (wait | flush | none).
+func (e *c11Env) bhold(w int) {
+	e.bholder = w
+	e.workers[w].cmd <- func() {
+		follow := ""
+		e.pe.wgBarrier.Guard(func() { follow = c11BarrierPark(e.bch) })
+		switch follow {
+		case "wait":
+			e.wait(w)
+		case "flush":
+			e.pe.Flush()
+		}
+	}
+}
+
+// brel releases the barrier. One P while the operation runs: the releasing caller then runs ahead of the
+// goroutines it wakes (they are only made runnable), which is the schedule in which a batch that is in
+// nobody's books between RemoveAll / the commander and waitGroup.Add is missed by Wait.
+func (e *c11Env) brel(follow string, self int64) string {
+	old := runtime.GOMAXPROCS(1)
+	e.bch <- follow
+	e.bholder = -1
+	obs := e.observe(self)
+	runtime.GOMAXPROCS(old)
+	return obs
+}
 
 // holdAt parks the calling caller-goroutine if it is armed for this point. "removed" is the RemoveAll of
 // addAndCheck (the producer owns the batch, inflight = 1); inside Flush the same call is point "fremoved".
@@ -238,6 +281,8 @@ func (e *c11Env) classify(g c11G) string {
 		switch {
 		case in == "c11HoldPark":
 			return "hold"
+		case in == "c11BarrierPark":
+			return "bhold"
 		case in == "c11Gate":
 			return "cb"
 		case in == "c11WorkerLoop":
@@ -414,6 +459,9 @@ func (e *c11Env) observe(self int64) string {
 	}
 	nf := append([]int(nil), e.newFin...)
 	e.newFin = nil
+	ends := append([]int(nil), nf...)
+	wret := e.wret
+	e.wret = nil
 	e.mu.Unlock()
 	sort.Strings(cbs)
 	sort.Ints(nf)
@@ -431,8 +479,15 @@ func (e *c11Env) observe(self int64) string {
 			g = 1
 		}
 	})
-	return fmt.Sprintf("w=%s fl=%s c=%s cmd=%d inf=%d g=%d cb=%s nf=%s", strings.Join(snap.workers, ","), fl,
+	obs := fmt.Sprintf("w=%s fl=%s c=%s cmd=%d inf=%d g=%d cb=%s nf=%s", strings.Join(snap.workers, ","), fl,
 		c11Ints(cont, ","), len(e.pe.commander), atomic.LoadInt32(&e.pe.inflight), g, cb, c11Ints(nf, ","))
+	if len(wret) > 0 {
+		// event order inside this operation (for the monitor only): callback ends in order, and for every Wait
+		// that returned how many of them had happened before
+		sort.Strings(wret)
+		obs += " ends=" + c11Ints(ends, ",") + " wret=" + strings.Join(wret, ",")
+	}
+	return obs
 }
 
 func (e *c11Env) release(first int, pan bool) bool {
@@ -619,6 +674,105 @@ func c11Race(r *verifh.Rng) verifh.Section {
 	return verifh.Section{Cfg: c11Cfg(kind, max, iv, p, gate, 0), Ops: ops}
 }
 
+// c11Barrier generates one section of the class "somebody is parked between taking a batch (RemoveAll in Flush /
+// the commander receive of the hand-over path) and registering in the wait group, while another goroutine
+// calls Wait": the harness owns pe.wgBarrier for a while, and the caller that releases it goes straight on
+// into Wait / Flush.
+func c11Barrier(r *verifh.Rng) verifh.Section {
+	kind := r.PickS("bulk", "bulk", "chunk")
+	max := r.Pick(2, 2, 3)
+	iv := r.Pick(1, 10, 1000)
+	p := 3
+	gate := r.Pick(1, 1, 0)
+	id := 1
+	var ops []string
+	var firsts []int
+	add := func(w, sz int) int {
+		x := c11T(id, sz)
+		id++
+		ops = append(ops, fmt.Sprintf("add %d %d", w, x))
+		return x
+	}
+	if r.Chance(1, 3) {
+		// a flusher that has already seen a tick (commanded cleared)
+		firsts = append(firsts, add(0, 1))
+		ops = append(ops, "tick")
+		if gate == 1 {
+			ops = append(ops, fmt.Sprintf("rel %d ok", firsts[0]))
+		}
+	}
+	h := r.Intn(p) // the caller that holds the barrier and then runs ahead
+	o1, o2 := (h+1)%p, (h+2)%p
+	switch r.Intn(3) {
+	case 0: // Flush / tick / Wait of somebody else parks at the barrier with tasks pending in the container
+		n := 1
+		if kind == "bulk" {
+			n = r.Range(1, max-1)
+		}
+		for i := 0; i < n; i++ {
+			x := add(o1, 1)
+			if i == 0 {
+				firsts = append(firsts, x)
+			}
+		}
+		ops = append(ops, fmt.Sprintf("bhold %d", h))
+		switch r.Intn(4) {
+		case 0:
+			ops = append(ops, "tick")
+		case 1:
+			ops = append(ops, fmt.Sprintf("wait %d", o2))
+		default:
+			ops = append(ops, fmt.Sprintf("flush %d", o2))
+		}
+	case 1: // hand-over path: the flusher has received the batch from the commander and parks at the barrier
+		var f int
+		if kind == "chunk" {
+			f = add(o1, max-1)
+		} else {
+			for i := 0; i < max-1; i++ {
+				x := add(o1, 1)
+				if i == 0 {
+					f = x
+				}
+			}
+		}
+		firsts = append(firsts, f)
+		ops = append(ops, fmt.Sprintf("bhold %d", h))
+		add(o2, 1)
+	default: // both: a batch in the hand-over and a task in the container
+		ops = append(ops, fmt.Sprintf("bhold %d", h))
+		var f int
+		if kind == "chunk" {
+			f = add(o1, max)
+		} else {
+			for i := 0; i < max; i++ {
+				x := add(o1, 1)
+				if i == 0 {
+					f = x
+				}
+			}
+		}
+		firsts = append(firsts, f)
+		if r.Chance(1, 2) {
+			firsts = append(firsts, add(o2, 1))
+			ops = append(ops, "tick")
+		}
+	}
+	ops = append(ops, "brel "+r.PickS("wait", "wait", "wait", "flush", "none"))
+	if r.Chance(1, 2) {
+		ops = append(ops, fmt.Sprintf("wait %d", r.Intn(p)))
+	}
+	if gate == 1 {
+		for _, f := range firsts {
+			if r.Chance(2, 3) {
+				ops = append(ops, fmt.Sprintf("rel %d %s", f, r.PickS("ok", "ok", "panic")))
+			}
+		}
+	}
+	ops = append(ops, "drain")
+	return verifh.Section{Cfg: c11Cfg(kind, max, iv, p, gate, 0), Ops: ops}
+}
+
 func c11Gen(r *verifh.Rng) []verifh.Section {
 	var secs []verifh.Section
 	// scripted: hand-over window (batch taken by a producer, background busy) then Wait
@@ -649,8 +803,17 @@ func c11Gen(r *verifh.Rng) []verifh.Section {
 		secs = append(secs, verifh.Section{Cfg: c11Cfg("bulk", 2, 10, 2, 0, 0),
 			Ops: []string{"add 0 1", "t+ 101", "hold 1 " + pt, "add 1 2", "tick", "unhold 1", "drain"}})
 	}
+	// scripted: a Flush is parked at the wait-group barrier while the releasing caller runs Wait
+	secs = append(secs, verifh.Section{Cfg: c11Cfg("bulk", 3, 10, 3, 1, 0),
+		Ops: []string{"add 0 1", "add 0 2", "bhold 2", "flush 1", "brel wait", "rel 1 ok", "drain"}})
+	// scripted: the flusher holds a handed-over batch at the barrier while the releasing caller runs Wait
+	secs = append(secs, verifh.Section{Cfg: c11Cfg("bulk", 2, 10, 3, 1, 0),
+		Ops: []string{"add 0 1", "bhold 2", "add 1 2", "brel wait", "rel 1 ok", "drain"}})
 	for i := verifh.Scale(24, 400); i > 0; i-- {
 		secs = append(secs, c11Race(r))
+	}
+	for i := verifh.Scale(24, 400); i > 0; i-- {
+		secs = append(secs, c11Barrier(r))
 	}
 	nsec := verifh.Scale(70, 900)
 	for i := 0; i < nsec; i++ {
@@ -709,8 +872,12 @@ func c11Gen(r *verifh.Rng) []verifh.Section {
 				bytes = 0
 			case x < 85:
 				ops = append(ops, fmt.Sprintf("hold %d %s", w, r.PickS("full", "removed", "notfull", "fremoved")))
-			case x < 89:
+			case x < 88:
 				ops = append(ops, fmt.Sprintf("unhold %d", w))
+			case x < 90:
+				ops = append(ops, fmt.Sprintf("bhold %d", w))
+			case x < 92:
+				ops = append(ops, "brel "+r.PickS("wait", "wait", "flush", "none"))
 			default:
 				if gate == 1 && len(added) > 0 {
 					k := added[r.Intn(len(added))]
@@ -740,7 +907,7 @@ func TestVerifC11(t *testing.T) {
 	self := c11Goid()
 	secs := verifh.Sections(c11Gen)
 	verifh.Run(t, secs, func(cfg verifh.Cfg) (func(op []string) string, func()) {
-		e := &c11Env{gate: cfg.Int("gate", 0) == 1, pm: cfg.Int("pm", 0)}
+		e := &c11Env{gate: cfg.Int("gate", 0) == 1, pm: cfg.Int("pm", 0), bholder: -1, bch: make(chan string)}
 		iv := time.Duration(cfg.Int("iv", 10))
 		max := cfg.Int("max", 2)
 		kind := cfg.Str("kind", "bulk")
@@ -797,9 +964,41 @@ func TestVerifC11(t *testing.T) {
 				case "flush":
 					e.workers[w].cmd <- func() { e.pe.Flush() }
 				default:
-					e.workers[w].cmd <- func() { e.pe.Wait() }
+					e.workers[w].cmd <- func() { e.wait(w) }
 				}
 				return e.observe(self)
+			case "bhold":
+				w := verifh.Atoi(op[1])
+				if w < 0 || w >= p || e.bholder >= 0 {
+					return "skip"
+				}
+				snap := e.quiesce(self)
+				if snap == nil {
+					return e.stuck
+				}
+				if snap.workers[w] != "idle" {
+					return "skip"
+				}
+				for _, c := range snap.workers {
+					if c == "wgwait" { // a Wait owns the barrier
+						return "skip"
+					}
+				}
+				e.bhold(w)
+				return e.observe(self)
+			case "brel":
+				if e.bholder < 0 {
+					return "skip"
+				}
+				switch op[1] {
+				case "wait", "flush", "none":
+				default:
+					return "bad-op"
+				}
+				if e.quiesce(self) == nil {
+					return e.stuck
+				}
+				return e.brel(op[1], self)
 			case "hold":
 				// arm caller w: its next pass through the named point of the critical section parks it there
 				w := verifh.Atoi(op[1])
@@ -846,6 +1045,13 @@ func TestVerifC11(t *testing.T) {
 				timex.VerifAdvance(time.Duration(verifh.Atoi(op[1])))
 				return e.observe(self)
 			case "drain":
+				if e.bholder >= 0 {
+					if e.quiesce(self) == nil {
+						return e.stuck
+					}
+					e.bch <- "none"
+					e.bholder = -1
+				}
 				for w := 0; w < p; w++ {
 					if e.quiesce(self) == nil {
 						return e.stuck
@@ -863,7 +1069,7 @@ func TestVerifC11(t *testing.T) {
 				if e.quiesce(self) == nil {
 					return e.stuck
 				}
-				e.workers[p].cmd <- func() { e.pe.Wait() }
+				e.workers[p].cmd <- func() { e.wait(p) }
 				for i := 0; i < 1000; i++ {
 					snap := e.quiesce(self)
 					if snap == nil {
@@ -884,6 +1090,10 @@ func TestVerifC11(t *testing.T) {
 		}
 		done := func() {
 			// let the background goroutine of this section quit (not part of the trace)
+			if e.bholder >= 0 && !e.dead && e.quiesce(self) != nil {
+				e.bch <- "none"
+				e.bholder = -1
+			}
 			for w := 0; w < p && !e.dead; w++ {
 				if e.quiesce(self) != nil {
 					e.unhold(w)
